@@ -54,10 +54,13 @@ def r1_hot_paths_subscript(ctx):
     vc = rw.methods.get("visit_Call")
     ctx.require(vc is not None, "the rewriter has no visit_Call")
     ctx.touch(vc)
+    roles = A.rewriter_roles(repo)
+    ctx.require("map" in roles, "the re-compiler no longer binds the function's table under a name handed to the rewriter")
+    map_attr = roles["map"][0]
     sub_ctor = [
         n
         for n in ast.walk(vc.node)
-        if isinstance(n, ast.Call) and call_name(n) == "ast.Subscript" and any(kw.arg == "value" and "map_mangled" in src(kw.value) for kw in n.keywords)
+        if isinstance(n, ast.Call) and call_name(n) == "ast.Subscript" and any(kw.arg == "value" and any(is_self_attr(x, map_attr) for x in ast.walk(kw.value)) for kw in n.keywords)
     ]
     attr_ctor = [
         n
